@@ -64,4 +64,15 @@ def AllPairs {α β} (f : α → β → Prop) : List α → List β → Prop
   | a :: as, b :: bs => f a b ∧ AllPairs f as bs
   | _, _ => False
 
+mutual
+/-- nesting depth of `entry_value` in a writer operation / expression (the depth of the native
+recursion of `Operation::size` / `write`) -/
+def opDepth : WOp.Operation → Nat
+  | .entryValue body => exprDepth body + 1
+  | _ => 0
+def exprDepth : List WOp.Operation → Nat
+  | [] => 0
+  | op :: rest => max (opDepth op) (exprDepth rest)
+end
+
 end Gimli.ConvOp
